@@ -274,7 +274,17 @@ def twin_case(rec, seedt):
     # get_sample run vs the twin's stream (crosses the 4096-sample refill)
     m = int(rng.choice([10, 4096, 4097, 5000, 8200]))
     g1, g2 = make_gen(spec), make_gen(spec)
-    run = np.array([g1.get_sample() for _ in range(m)])
+    zero_at = set(int(v) for v in rng.integers(0, m, size=3)) if rng.random() < 0.5 else set()
+    run = []
+    for i_ in range(m):
+        if i_ in zero_at:
+            # a zero-length block request asks for nothing: it must leave the stream where it is
+            if np.asarray(g1.get_series(0)).shape != (0,):
+                rec.violation("block-length", "get_series(0) did not return an empty array")
+        run.append(g1.get_sample())
+    run = np.array(run)
+    if zero_at:
+        rec.count("get_sample_runs_with_zero_length_requests")
     nb = -(-m // 4096) * 4096
     stream = np.asarray(g2.get_series(nb))[:m]
     rec.count("get_sample_runs")
